@@ -260,6 +260,10 @@ class RefServer:
             return self.st(b"BYE", None, b"going away")
         if f == "NO" and verb != "AUTHENTICATE":
             return self.st(b"NO", b"TRYLATER", b"fault injected")
+        if isinstance(f, str) and f.startswith("NO:") and verb != "AUTHENTICATE":
+            # refused with a response code of the test's choosing ("NO:" alone: no code at all)
+            code = f[3:].encode() or None
+            return self.st(b"NO", code, b"refused")
         strs = [a for t, a in args if t == "str"]
         if verb == "CAPABILITY" and not args:
             return self.caps() + self.st(b"OK")
@@ -341,6 +345,8 @@ class RefServer:
                 return self.st(b"NO", None, b"bad script name")
             if len(content) > self.quota:
                 return self.st(b"NO", b"QUOTA/MAXSIZE", b"Quota exceeded")
+            if name not in self.scripts and getattr(self, "max_scripts", None) is not None and len(self.scripts) >= self.max_scripts:
+                return self.st(b"NO", b"QUOTA/MAXSCRIPTS", b"Too many scripts")
             if b"SYNTAXERROR" in content:
                 return self.st(b"NO", None, b"line 1: syntax error")
             self.scripts[name] = content
